@@ -410,9 +410,11 @@ def replay_sites(ctx):
     return out
 
 
-@rule('OP2', ['C09'], floor=1, template='must-loop')
+@rule('OP2', ['C09', 'C12', 'C08'], floor=1, template='must-loop')
 def op2(ctx):
-    """A damaged entry is skipped: the Corruption arm of the replay loop goes back to read_record."""
+    """A damaged entry is skipped: the Corruption arm of the replay loop goes back to read_record. (Stopping instead --
+    "too many corruptions", "probably the end" -- is not only a C09 matter: the writer then resumes in front of valid
+    older frames, and a later batch cut by a crash is completed by their tail: C12, C08.)"""
     rs = replay_sites(ctx)
     if not rs:
         ctx.missing('replay', 'no call returning Result<Option<MultiPlexedRecord>, _> in an open body')
